@@ -6,9 +6,11 @@ used only to decide whether a disagreement is a concrete violation of the proper
 import vlib
 
 U32 = 2**32 - 1
+U64 = 2**64 - 1
 ASSUMPTIONS = [
     "Range<Data> with Data::Int/Empty stands for every CellType (the code is generic and uses only Default/Clone/PartialEq)",
-    "ranges with 2^32 or more cells are excluded by precondition (Range::new computes the size in u32)",
+    "usize is 64 bits; allocations succeed (the model exposes the requested cell count as requested_new / requested_from_sparse; the tie only runs rectangles of a few hundred cells, so the usize cell count of Range::new beyond 2^32 cells is proved about the model but not exercised on the real code)",
+    "no range has 2^32 rows or 2^32 columns (Range::width/height add 1 in u32; Range_spec.fits32 is preserved by every history under pre_head)",
 ]
 
 # ---------------------------------------------------------------- naive spec (search oracle)
@@ -21,7 +23,7 @@ class Spec:
         k = op[0]
         if k == "new" or k == "win":
             _, a, b, c, d = op
-            if a > c or b > d or (c - a + 1) * (d - b + 1) > U32:
+            if a > c or b > d or (c - a + 1) * (d - b + 1) > U64:
                 return False
             if k == "new":
                 self.m = {}
@@ -32,9 +34,7 @@ class Spec:
             self.rect, self.m = None, {}
         elif k == "sparse":
             cells = op[1]
-            rows = [c[0] for c in cells]
-            if rows != sorted(rows):
-                return False
+            rows = [c[0] for c in cells]   # any order since 3140dd1
             self.m = {}
             if not cells:
                 self.rect = None
@@ -114,7 +114,7 @@ def gen_history(rng, ctx=None):
             op = ("empty",)
         elif kind == "sparse":
             cells = [coord() + (rng.randrange(0, 10),) for _ in range(rng.randrange(0, 8))]
-            if not (bad and rng.random() < 0.3):
+            if rng.random() < 0.5:     # row order is no longer a precondition: half stay shuffled
                 cells.sort(key=lambda c: c[0])
             op = ("sparse", cells)
         else:
@@ -179,6 +179,14 @@ CORPUS = [
     "new 1 1 2 2|set 2 5 1|set 6 2 2|set 7 7 3",
     "sparse 1:3:1,1:1:2,4:2:3,4:2:4|win 0 0 5 5|win 2 2 3 3",
     "new 3 3 1 1", "new 0 5 1 2", "new 1 1 3 3|set 0 0 1", "sparse 3:1:1,1:1:2",
+    # from_sparse on cells that are not in row order (3140dd1): bounds are min/max over all cells
+    "sparse 5:5:1,1:9:2,3:0:3|set 6 10 4|win 0 0 6 6",
+    "sparse 4:2:1,4:1:2,0:3:3,2:2:4,0:3:5",
+    "sparse 7:0:1,6:1:2,5:2:3,4:3:4|win 5 1 6 2|set 9 9 9",
+    "sparse 4294967295:4294967295:1,4294967290:4294967293:2|win 4294967289 4294967292 4294967295 4294967295",
+    "sparse 2:2:0,1:1:0", "sparse 3:3:3",
+    # still panicking by contract: inverted corners (assert / u32 subtraction), set before start
+    "win 2 2 1 1", "win 0 5 1 2", "sparse 2:2:1|set 1 2 5", "sparse 2:2:1|set 2 1 5",
 ]
 
 def run_corpus(ctx):
